@@ -408,6 +408,9 @@ En(s_, a_) ==
       [] a_[1] = "Edit"        -> IsLive(s_, a_[2]) /\ a_[3] \in EditParts(s_.objs[a_[2]])
       [] a_[1] = "Query"       -> /\ IsLive(s_, a_[2]) /\ HasSlot(s_) /\ Room(s_, 3)
                                   /\ (a_[4] = Inf \/ Decidable(PtsOf(s_, s_.objs[a_[2]])))
+                                  \* (a finite radius on an EMPTY grid raises in the library - reshape(0, -1) - and is
+                                  \* documented nowhere: left out)
+                                  /\ (a_[4] = Inf \/ s_.objs[a_[2]].w[3] > 0)
                                   /\ (Discipline /\ a_[4] # Inf => TreeOk(s_, s_.objs[a_[2]]))
       [] a_[1] = "GetItem"     -> /\ IsLive(s_, a_[2]) /\ s_.objs[a_[2]].k = "Grid" /\ HasSlot(s_) /\ Room(s_, 2)
                                   /\ SelOk(a_[3], s_.objs[a_[2]].w[3])
@@ -448,7 +451,7 @@ vars == <<heap, cache, objs, obs>>
 S == [heap |-> heap, cache |-> cache, objs |-> objs]
 S0 == [heap |-> [b_ \in 1..NBuf |-> Free], cache |-> [md_ \in MD |-> [p |-> 0, w |-> 0]], objs |-> [i_ \in 1..MaxObjs |-> Blank]]
 Become(r_) == heap' = r_.s.heap /\ cache' = r_.s.cache /\ objs' = r_.s.objs /\ obs' = r_.obs
-Step(a_) == En(S, a_) /\ Become(Do(S, a_))
+Step(a_) == En(S, a_) /\ \E r_ \in {Do(S, a_)} : Become(r_)     \* (the bound variable makes TLC evaluate Do once)
 Init == heap = S0.heap /\ cache = S0.cache /\ objs = S0.objs /\ obs = NoObs
 
 Slots == 1..MaxObjs
@@ -512,8 +515,9 @@ Whole(r_) == r_[2] = 0 /\ r_[3] = Len(heap[r_[1]].c)
 OwnerOf(x_) == heap[PRef(S, x_)[1]].own
 OwnershipDiscipline ==
     /\ \A x_ \in AllParts(S) : RefValid(PRef(S, x_)) /\ OwnerOf(x_) \in {"caller", "lib"}
-    \* only local grids cut out of a molecular grid are views of a part of an array
-    /\ \A x_ \in AllParts(S) : ~Whole(PRef(S, x_)) => objs[x_[1]].k = "Loc"
+    \* only local grids cut out of a molecular grid - and plain grids the caller builds from the arrays of
+    \* such a local grid - hold views of a PART of an array; angular, atomic and molecular grids never do
+    /\ \A x_ \in AllParts(S) : ~Whole(PRef(S, x_)) => objs[x_[1]].k \in {"Loc", "Grid"}
     \* the arrays of one object are pairwise disjoint
     /\ \A x_ \in AllParts(S), y_ \in AllParts(S) : x_[1] = y_[1] /\ x_[2] # y_[2] => ~Overlap(PRef(S, x_), PRef(S, y_))
     \* what the library computes for a molecule belongs to the library, whole and unshared at birth
